@@ -41,28 +41,28 @@ def main():
         r = sh("g++ -std=c++17 -O1 -I%s/include %s %s/src/*.cpp -o %s/demo_mut && %s/demo_mut" % (wt, demo, wt, wt, wt), timeout=600)
         info["ran"]["demo_with_change_exit"] = r.returncode
         info["ran"]["demo_with_change_output"] = r.stdout[-600:]
-    finally:
+    except BaseException:
         sh("git -C /repo worktree remove --force %s" % wt)
+        raise
     ok = info["ran"].get("demo_on_clean_tree_exit") == 0 and info["ran"].get("demo_with_change_exit") not in (0, None) and "PASSED  ] 293" in info["ran"].get("tests_with_change", "")
     info["confirmed"] = ok
-    # ---- 2. run our checks against it
+    # ---- 2. run our checks against the changed tree (the scratch worktree stands in for /repo via VP_REPO, so that
+    #         /repo itself stays untouched and several evaluations can run side by side)
     res = {}
-    if ok:
-        r = sh("git -C /repo status --porcelain")
-        if r.stdout.strip():
-            raise SystemExit("/repo is not clean")
-        r = sh("git -C /repo apply %s" % os.path.abspath(patch))
-        try:
+    try:
+        if ok:
+            sh("rm -rf %s/_b %s/demo_clean %s/demo_mut" % (wt, wt, wt))
+            env = dict(os.environ, VP_REPO=wt, VP_REPLAYS="/tmp/wt/replays_" + sid, VP_EVIDENCE_DIR="/tmp/wt/evidence_" + sid)
             for c in checks:
                 t0 = time.time()
-                r = sh("cd %s && tools/check %s %s" % (VERIF, c, tier), timeout=7200)
+                r = sh("cd %s && tools/check %s %s" % (VERIF, c, tier), timeout=7200, env=env)
                 viol = [l for l in r.stdout.splitlines() if l.startswith("VIOLATION")]
                 detail = [l.strip() for l in r.stdout.splitlines() if l.startswith("  ")][:3]
                 inc = [l for l in r.stdout.splitlines() if l.startswith("INCONCLUSIVE")]
-                res[c] = {"tier": tier, "exit": r.returncode, "violations": len(viol), "inconclusive": len(inc), "first": (detail or inc or [""])[0][:400], "wall_s": round(time.time() - t0, 1)}
-        finally:
-            sh("git -C /repo checkout -- . && git -C /repo clean -fdq src include")
-            sh("rm -rf %s/replays" % VERIF)
+                res[c] = {"tier": tier, "exit": r.returncode, "violations": len(viol), "inconclusive": len(inc), "first": (detail or inc or [""])[0][:400].replace(wt, "/repo"), "wall_s": round(time.time() - t0, 1)}
+    finally:
+        sh("git -C /repo worktree remove --force %s" % wt)
+        sh("rm -rf /tmp/wt/replays_%s /tmp/wt/evidence_%s" % (sid, sid))
     info["checks"] = res
     info["detected_by"] = sorted(c for c, v in res.items() if v["exit"] == 1 and v["violations"] > 0)
     json.dump(info, open(os.path.join(out, "meta.json"), "w"), indent=1)
